@@ -46,7 +46,7 @@ Print Assumptions C17_index_buffer_independent.
    difference: for every well-formed FASTA, loading the written .fai gives the
    index back, and parsing the written .agp gives the derived assembly back *)
 Theorem C17_cold_warm_index : forall w eol final_nl recs buf idx asm,
-  fasta_wf w eol recs ->
+  fasta_wf w eol recs -> Forall (fun r => name_loadable (r_name r)) recs ->
   drop_peak (index_fasta (render w eol final_nl recs) buf) = Ok (idx, asm) ->
   load_index (write_index idx) = Ok idx.
 Proof. exact cold_warm_index. Qed.
